@@ -15,16 +15,25 @@ use vcore::{compile, Check, Labels, Outcome, Plan, Project, Stats, Step, Tape, T
 pub struct C02;
 pub const CHECK: C02 = C02;
 pub fn plan(t: Tier) -> Plan {
-    Plan::new(t.pick(8_000, 200_000), t.pick(3200, 4600))
+    Plan::new(t.pick(30_000, 400_000), t.pick(3200, 4600))
 }
 
 #[derive(Clone, Serialize, Deserialize)]
 pub struct Case {
+    /// annotate variable definitions in the rendering
+    #[serde(default)]
+    pub annotate_defs: bool,
     /// the perturbed program (the perturbed expression is wrapped in `Mark`)
     pub prog: Program,
     pub kinds: Vec<String>,
     #[serde(default)]
     pub source: String,
+}
+
+fn surface(annotate_defs: bool) -> SurfacePlan {
+    let mut p = SurfacePlan::default();
+    p.annot_default = (annotate_defs, true, true);
+    p
 }
 
 fn other_scalar(t: &mut Tape, ty: &Ty) -> Expr {
@@ -46,127 +55,167 @@ fn other_scalar(t: &mut Tape, ty: &Ty) -> Expr {
     t.pick(&opts).clone()
 }
 
-/// apply one perturbation; returns the perturbed program and the kind name
+/// apply one perturbation; returns the perturbed program and the kind name.
+/// The kind is drawn first (uniformly over the kinds that have a matching site), then a matching site.
 fn perturb(t: &mut Tape, p: &Program) -> Option<(Program, String)> {
-    let (_, exprs) = plant::sites(p);
-    if exprs.is_empty() {
+    let (_, sites) = plant::sites(p);
+    if sites.is_empty() {
         return None;
     }
-    for _ in 0..6 {
-        let si = t.below(exprs.len());
-        let site = &exprs[si];
-        let old = plant::expr_at(p, si)?;
-        if matches!(old.kind, EKind::Mark(_)) {
-            continue;
+    let olds: Vec<Expr> = (0..sites.len()).map(|i| plant::expr_at(p, i).unwrap_or_else(|| int(0))).collect();
+    let is_marked = |x: &Expr| matches!(x.kind, EKind::Mark(_));
+    let cand = |f: &dyn Fn(usize) -> bool| -> Vec<usize> { (0..sites.len()).filter(|i| !is_marked(&olds[*i]) && f(*i)).collect() };
+    let blob_ok = |b: usize| p.blobs[b].fields.iter().all(|f| !f.ty.is_fn());
+    let c_any = cand(&|_| true);
+    let c_var = cand(&|i| sites[i].ctx.scope.iter().any(|v| p.var(*v).ty != olds[i].ty && p.var(*v).kind != VarKind::SelfVar && (!sites[i].ctx.in_pure || !p.var(*v).mutable)));
+    let c_blob = cand(&|i| matches!(&olds[i].ty, Ty::Blob(a) if (0..p.blobs.len()).any(|b| b != *a && blob_ok(b))));
+    let c_call = cand(&|i| matches!(&olds[i].kind, EKind::Call(_, args) if !args.is_empty()));
+    let c_field = cand(&|i| matches!(&olds[i].kind, EKind::Field(..)) || matches!(&olds[i].kind, EKind::BlobNew { fields, .. } if !fields.is_empty()));
+    let c_variant = cand(&|i| matches!(&olds[i].kind, EKind::Variant(..)) || matches!(&olds[i].kind, EKind::Case { arms, default, .. } if default.is_none() && arms.len() > 1));
+    let c_if = cand(&|i| matches!(&olds[i].kind, EKind::If(_, Some(d)) if d.value.is_some()));
+    let c_list = cand(&|i| matches!(&olds[i].kind, EKind::List(xs) if !xs.is_empty()));
+    let c_tuple = cand(&|i| matches!(&olds[i].kind, EKind::TupleIdx(..)) || matches!(&olds[i].kind, EKind::Tuple(xs) if !xs.is_empty()));
+    let pools: [(&Vec<usize>, u32); 9] =
+        [(&c_any, 20), (&c_var, 16), (&c_blob, 45), (&c_call, 10), (&c_field, 10), (&c_variant, 8), (&c_if, 8), (&c_list, 6), (&c_tuple, 8)];
+    let weights: Vec<u32> = pools.iter().map(|(c, w)| if c.is_empty() { 0 } else { *w }).collect();
+    if weights.iter().all(|w| *w == 0) {
+        return None;
+    }
+    let which = t.weighted(&weights);
+    let pool = pools[which].0;
+    if pool.is_empty() {
+        return None;
+    }
+    let si = *t.pick(pool);
+    let site = &sites[si];
+    let old = olds[si].clone();
+    let claimed = old.ty.clone();
+    let mark = |x: Expr| -> Expr { e(claimed.clone(), EKind::Mark(Box::new(Expr { ty: claimed.clone(), kind: x.kind }))) };
+    let mut q = p.clone();
+    let (newx, kind): (Expr, &str) = match which {
+        0 => (mark(other_scalar(t, &claimed)), "literal-of-other-type"),
+        1 => {
+            let vars: Vec<VarId> = site
+                .ctx
+                .scope
+                .iter()
+                .copied()
+                .filter(|v| p.var(*v).ty != claimed && p.var(*v).kind != VarKind::SelfVar && (!site.ctx.in_pure || !p.var(*v).mutable))
+                .collect();
+            let v = *t.pick(&vars);
+            (mark(e(claimed.clone(), EKind::Var(v))), "variable-of-other-type")
         }
-        let claimed = old.ty.clone();
-        let mark = |x: Expr| -> Expr { e(claimed.clone(), EKind::Mark(Box::new(Expr { ty: claimed.clone(), kind: x.kind }))) };
-        let choice = t.weighted(&[30, 25, 12, 8, 8, 6, 6, 5]);
-        let (newx, kind): (Expr, &str) = match choice {
-            0 => (mark(other_scalar(t, &claimed)), "literal-of-other-type"),
-            1 => {
-                // a variable in scope of another type
-                let vars: Vec<VarId> = site
-                    .ctx
-                    .scope
-                    .iter()
-                    .copied()
-                    .filter(|v| p.var(*v).ty != claimed && p.var(*v).kind != VarKind::SelfVar && (!site.ctx.in_pure || !p.var(*v).mutable))
-                    .collect();
-                if vars.is_empty() {
-                    continue;
+        2 => {
+            let a = match &claimed {
+                Ty::Blob(a) => *a,
+                _ => return None,
+            };
+            let others: Vec<usize> = (0..p.blobs.len()).filter(|b| *b != a && blob_ok(*b)).collect();
+            // prefer a structurally related blob (its fields are a subset or a superset of the expected blob's)
+            let names = |x: usize| -> Vec<(String, Ty)> { p.blobs[x].fields.iter().map(|f| (f.name.clone(), f.ty.clone())).collect() };
+            let fa = names(a);
+            let related: Vec<usize> = others
+                .iter()
+                .copied()
+                .filter(|b| {
+                    let fb = names(*b);
+                    fb.iter().all(|f| fa.contains(f)) || fa.iter().all(|f| fb.contains(f))
+                })
+                .collect();
+            let b = if !related.is_empty() && t.chance(3, 4) { *t.pick(&related) } else { *t.pick(&others) };
+            let vars: Vec<VarId> = site.ctx.scope.iter().copied().filter(|v| p.var(*v).ty == Ty::Blob(b)).collect();
+            if !vars.is_empty() && t.bool() {
+                (mark(e(claimed.clone(), EKind::Var(*t.pick(&vars)))), "blob-of-other-type")
+            } else {
+                let mut fields = Vec::new();
+                for f in &p.blobs[b].fields {
+                    match syltmodel::shrink::default_expr(p, &f.ty) {
+                        Some(d) => fields.push((f.name.clone(), d)),
+                        None => return None,
+                    }
                 }
-                let v = *t.pick(&vars);
-                (mark(e(claimed.clone(), EKind::Var(v))), "variable-of-other-type")
+                let sv = q.new_var("self".to_string(), Ty::Blob(b), VarKind::SelfVar, true);
+                (mark(e(claimed.clone(), EKind::BlobNew { blob: b, self_var: sv, fields })), "blob-of-other-type")
             }
-            2 => match &old.kind {
-                // call with an argument dropped / duplicated / two swapped
-                EKind::Call(f, args) if !args.is_empty() => {
-                    let mut a = args.clone();
-                    let k = match t.below(3) {
-                        0 => {
+        }
+        3 => match &old.kind {
+            EKind::Call(f, args) => {
+                let mut a = args.clone();
+                let k = match t.below(3) {
+                    0 => {
+                        a.pop();
+                        "argument-dropped"
+                    }
+                    1 => {
+                        let x = a[0].clone();
+                        a.push(x);
+                        "argument-duplicated"
+                    }
+                    _ => {
+                        if a.len() < 2 || a[0].ty == a[1].ty {
                             a.pop();
                             "argument-dropped"
-                        }
-                        1 => {
-                            let x = a[0].clone();
-                            a.push(x);
-                            "argument-duplicated"
-                        }
-                        _ => {
-                            if a.len() < 2 || a[0].ty == a[1].ty {
-                                continue;
-                            }
+                        } else {
                             a.swap(0, 1);
                             "arguments-swapped"
                         }
-                    };
-                    (mark(e(claimed.clone(), EKind::Call(f.clone(), a))), k)
-                }
-                _ => continue,
-            },
-            3 => match &old.kind {
-                EKind::Field(o, _) => (mark(e(claimed.clone(), EKind::Field(o.clone(), "zznope".to_string()))), "unknown-field"),
-                EKind::BlobNew { blob, self_var, fields } if !fields.is_empty() => {
-                    let mut f = fields.clone();
-                    if t.bool() {
-                        f.pop();
-                        (mark(e(claimed.clone(), EKind::BlobNew { blob: *blob, self_var: *self_var, fields: f })), "missing-field")
-                    } else {
-                        f.push(("zzextra".to_string(), int(1)));
-                        (mark(e(claimed.clone(), EKind::BlobNew { blob: *blob, self_var: *self_var, fields: f })), "extra-field")
                     }
+                };
+                (mark(e(claimed.clone(), EKind::Call(f.clone(), a))), k)
+            }
+            _ => return None,
+        },
+        4 => match &old.kind {
+            EKind::Field(o, _) => (mark(e(claimed.clone(), EKind::Field(o.clone(), "zznope".to_string()))), "unknown-field"),
+            EKind::BlobNew { blob, self_var, fields } => {
+                let mut f = fields.clone();
+                if t.bool() {
+                    f.pop();
+                    (mark(e(claimed.clone(), EKind::BlobNew { blob: *blob, self_var: *self_var, fields: f })), "missing-field")
+                } else {
+                    f.push(("zzextra".to_string(), int(1)));
+                    (mark(e(claimed.clone(), EKind::BlobNew { blob: *blob, self_var: *self_var, fields: f })), "extra-field")
                 }
-                _ => continue,
-            },
-            4 => match &old.kind {
-                EKind::Variant(en, _, payload) => {
-                    (mark(e(claimed.clone(), EKind::Variant(*en, "Zznope".to_string(), payload.clone()))), "unknown-variant")
-                }
-                EKind::Case { scrut, arms, default } if default.is_none() && arms.len() > 1 => {
-                    let mut a = arms.clone();
-                    a.pop();
-                    (mark(e(claimed.clone(), EKind::Case { scrut: scrut.clone(), arms: a, default: None })), "arm-removed-from-total-case")
-                }
-                _ => continue,
-            },
-            5 => match &old.kind {
-                // branches of different types
-                EKind::If(bs, Some(d)) if d.value.is_some() => {
-                    let mut d2 = d.clone();
-                    d2.value = Some(Box::new(other_scalar(t, &claimed)));
-                    (mark(e(claimed.clone(), EKind::If(bs.clone(), Some(d2)))), "branches-of-different-types")
-                }
-                _ => continue,
-            },
-            6 => match &old.kind {
-                EKind::List(xs) if !xs.is_empty() => {
-                    let mut y = xs.clone();
-                    let inner = xs[0].ty.clone();
-                    y.push(other_scalar(t, &inner));
-                    (mark(e(claimed.clone(), EKind::List(y))), "heterogeneous-list")
-                }
-                EKind::Std(StdFn::ListPush, args) => {
-                    let inner = args[1].ty.clone();
-                    let a = vec![args[0].clone(), other_scalar(t, &inner)];
-                    (mark(e(claimed.clone(), EKind::Std(StdFn::ListPush, a))), "push-of-other-type")
-                }
-                _ => continue,
-            },
-            _ => match &old.kind {
-                // tuple index out of range / tuple of another length
-                EKind::TupleIdx(o, i) => (mark(e(claimed.clone(), EKind::TupleIdx(o.clone(), i + 3))), "tuple-index-out-of-range"),
-                EKind::Tuple(xs) if !xs.is_empty() => {
-                    let mut y = xs.clone();
-                    y.push(int(9));
-                    (mark(e(claimed.clone(), EKind::Tuple(y))), "tuple-of-other-length")
-                }
-                _ => continue,
-            },
-        };
-        return Some((plant::replace_expr(p, si, newx), kind.to_string()));
-    }
-    None
+            }
+            _ => return None,
+        },
+        5 => match &old.kind {
+            EKind::Variant(en, _, payload) => (mark(e(claimed.clone(), EKind::Variant(*en, "Zznope".to_string(), payload.clone()))), "unknown-variant"),
+            EKind::Case { scrut, arms, .. } => {
+                let mut a = arms.clone();
+                a.pop();
+                (mark(e(claimed.clone(), EKind::Case { scrut: scrut.clone(), arms: a, default: None })), "arm-removed-from-total-case")
+            }
+            _ => return None,
+        },
+        6 => match &old.kind {
+            EKind::If(bs, Some(d)) => {
+                let mut d2 = d.clone();
+                d2.value = Some(Box::new(other_scalar(t, &claimed)));
+                (mark(e(claimed.clone(), EKind::If(bs.clone(), Some(d2)))), "branches-of-different-types")
+            }
+            _ => return None,
+        },
+        7 => match &old.kind {
+            EKind::List(xs) => {
+                let mut y = xs.clone();
+                let inner = xs[0].ty.clone();
+                y.push(other_scalar(t, &inner));
+                (mark(e(claimed.clone(), EKind::List(y))), "heterogeneous-list")
+            }
+            _ => return None,
+        },
+        _ => match &old.kind {
+            EKind::TupleIdx(o, i) => (mark(e(claimed.clone(), EKind::TupleIdx(o.clone(), i + 3))), "tuple-index-out-of-range"),
+            EKind::Tuple(xs) => {
+                let mut y = xs.clone();
+                y.push(int(9));
+                (mark(e(claimed.clone(), EKind::Tuple(y))), "tuple-of-other-length")
+            }
+            _ => return None,
+        },
+    };
+    Some((plant::replace_expr(&q, si, newx), kind.to_string()))
 }
 
 impl Check for C02 {
@@ -191,15 +240,19 @@ impl Check for C02 {
         if kinds.is_empty() {
             return None;
         }
-        let source = render(&prog, &SurfacePlan::default()).text;
-        Some(Case { prog, kinds, source })
+        let annotate_defs = t.bool();
+        let source = render(&prog, &surface(annotate_defs)).text;
+        Some(Case { annotate_defs, prog, kinds, source })
     }
 
     fn evaluate(&self, case: &Case, labels: &mut Labels) -> Verdict {
         for k in &case.kinds {
             labels.add(format!("kind:{}", k));
         }
-        let printed = render(&case.prog, &SurfacePlan::default());
+        let printed = render(&case.prog, &surface(case.annotate_defs));
+        if case.annotate_defs {
+            labels.add("annotated-definitions");
+        }
         let out = compile(&Project::single(printed.text.clone()));
         let lua = match &out {
             Outcome::Accepted(b) => b.clone(),
@@ -294,8 +347,8 @@ impl Check for C02 {
                 if !has_mark {
                     return Step::Skip;
                 }
-                let source = render(&p.prog, &SurfacePlan::default()).text;
-                Step::Candidate(Case { prog: p.prog, kinds: case.kinds.clone(), source })
+                let source = render(&p.prog, &surface(case.annotate_defs)).text;
+                Step::Candidate(Case { annotate_defs: case.annotate_defs, prog: p.prog, kinds: case.kinds.clone(), source })
             }
         }
     }
